@@ -27,7 +27,8 @@ META = {
         "ones. Which inputs end in the fallback is not decided."
         ' Also: the clean-up default is decided after layout deduction, copy_all stages one section, `layout` is a PLSSDesc setting, lock-down of layout / segment.'
         ' Round 7: options that PLSSParser defaults by layout (clean_up) reach it as None when not given; the stage-only flag of a replacement ChunkParser is read off __init__ whatever it is called; result caches keyed by everything the skipped parse reads.'
-        ' Round 8: segment() is followed for layout == copy_all with a Twp/Rge match (must keep the text in one block).'),
+        ' Round 8: segment() is followed for layout == copy_all with a Twp/Rge match (must keep the text in one block).'
+        ' Round 9: the attribute fall-back of PLSSDesc.parse runs whenever the argument is not given (no further state condition).'),
     'families': ['LOCK', 'ONCE', 'TBL', 'DEFUSE', 'FORWARD', 'DEADPARAM', 'SIB-DEFAULTS'],
 }
 
